@@ -24,6 +24,22 @@ structure ChildRes where
   out : ChildOut
   deriving DecidableEq, Repr
 
+/-- how the child ended, as `std::process::ExitStatus` tells it -/
+inductive ExitStatus where
+  | exited (code : Nat)
+  | signaled (sig : Nat)
+  deriving DecidableEq, Repr
+
+/-- `ExitStatus::success()` -/
+def ExitStatus.success : ExitStatus → Bool
+  | .exited 0 => true
+  | _ => false
+
+/-- the `exitOk` field of `ChildRes` as the source computes it (`bySuccess`: read from the source on every run;
+    without the fact the model falls back to "exit code, 0 when there is none" - the slip that accepts a death by signal) -/
+def exitOkOf (bySuccess : Bool) (st : ExitStatus) : Bool :=
+  if bySuccess then st.success else (match st with | .exited c => c == 0 | .signaled _ => true)
+
 inductive Fail where
   | unableToLaunch | procFailed | invalidOutput | nonFinite | killFailed
   deriving DecidableEq, Repr
